@@ -77,8 +77,8 @@ def _canon_val(fd, val):
         return tuple(sorted(
             (str(k), _canon_msg(v) if vfd.message_type is not None else v)
             for k, v in val.items()))
-    # 3 == LABEL_REPEATED
-    if fd.label == 3:
+    if getattr(fd, 'is_repeated', None) if hasattr(fd, 'is_repeated') \
+            else fd.label == 3:
         if fd.message_type is not None:
             return tuple(_canon_msg(v) for v in val)
         return tuple(val)
